@@ -89,7 +89,9 @@ def plan(ctx):
             out.append((name, "ham"))
         if c.family == "reed_muller" and k <= (11 if ctx.thorough else 8):
             out.append((name, "rminv"))
-        if c.family == "bch" and c.params["mu"] <= (5 if ctx.thorough else 4):
+        # Berlekamp-Massey works on polynomial coefficient order: the property quantifies over "both information sets" ('left', 'right');
+        # an index-list information set gives a coordinate-permuted (non-cyclic) code the decoder is not specified for
+        if c.family == "bch" and isinstance(c.params["info"], str) and c.params["mu"] <= (5 if ctx.thorough else 4):
             out.append((name, "bm"))
         if c.family == "reed_muller" and c.params["m"] <= (5 if ctx.thorough else 4) and k <= 16:
             out.append((name, "reed"))
